@@ -70,6 +70,31 @@ def check_prefix(ctx, prefix, label, cut):
                   'returned consumed=%r' % (consumed,))
 
 
+def check_whole(ctx, data, label, env):
+    """The control of the experiment: the frame whose prefixes are refused
+    is itself accepted, entirely, in the same environment."""
+    p = lib.pamqp()
+    ctx.case((data, env, 'whole'), True)
+    ctx.valid()
+    try:
+        with runner.guard(10):
+            consumed, _channel, _obj = p.frame.unmarshal(data)
+        ctx.calls()
+        bad = None if consumed == len(data) else \
+            'consumed {} of {} bytes'.format(consumed, len(data))
+    except runner.Hang:
+        bad = 'did not terminate'
+    except Exception as exc:  # noqa
+        bad = 'raised {!r}'.format(exc)
+    if bad:
+        ctx.outcome('whole-frame-refused')
+        ctx.violation('whole|' + data.hex()[:400],
+                      'the complete frame {} ({} bytes) is not accepted: '
+                      '{}'.format(label, len(data), bad),
+                      {'hex': data.hex(), 'label': label, 'whole': True},
+                      'decoded, consumed == len', bad)
+
+
 def run(task, ctx):
     if task[0] == 'debug-logging':
         with lib.debug_logging():
@@ -88,6 +113,7 @@ def run_frames(task, ctx, env):
         if len(data) > 4096:
             ctx.count('frames_cut_structurally')
         ctx.count('frames')
+        check_whole(ctx, data, label, env)
         for cut in cuts:
             prefix = data[:cut]
             ctx.case((prefix, env), cut >= 7,
@@ -101,6 +127,13 @@ def run_frames(task, ctx, env):
 
 def replay(case, ctx):
     data = bytes.fromhex(case['hex'])
+    if case.get('whole'):
+        if '[debug logging on]' in case.get('label', ''):
+            with lib.debug_logging():
+                check_whole(ctx, data, case.get('label', ''), 'x')
+        else:
+            check_whole(ctx, data, case.get('label', ''), '')
+        return
     if '[debug logging on]' in case.get('label', ''):
         with lib.debug_logging():
             check_prefix(ctx, data, case.get('label', ''), len(data))
